@@ -280,6 +280,17 @@ impl<'a> FullLoader<'a> {
       self.check(options, &b)?;
       module(b)
     } else {
+      // a URL that redirects today while the loader's cache still holds the module it used to serve: `Use` answers
+      // from the cache (outdated bytes), `Reload` with the redirect
+      if let Some(id) = self.inner.by_url.get(url)
+        && self.world.mods[id].k == "redirect"
+        && self.world.mods[id].stale
+        && options.cache_setting != CacheSetting::Reload
+      {
+        let b: Arc<[u8]> = Arc::from(b"// outdated cached copy\nexport {};\n".to_vec());
+        self.check(options, &b)?;
+        return Ok(Some(LoadResponse::Module { content: b, mtime: None, specifier: specifier.clone(), maybe_headers: None }));
+      }
       // plain URL world entry; verify a presented checksum against the bytes served
       let mut r = self.inner.respond(specifier)?;
       if let Some(LoadResponse::Module { content, .. }) = &mut r {
@@ -641,6 +652,8 @@ pub fn world_facts(world: &World) -> Value {
   }
   let reg_h = Registry::new(world);
   let sums: serde_json::Map<String, Value> = world.mods.iter().filter(|(_, m)| m.k == "mod").map(|(id, _)| (id.clone(), json!(sha(&reg_h.honest_bytes(id))))).collect();
+  // a redirecting URL whose outdated module is still in the loader's cache can end as a module as well
+  let stale_redir: Vec<String> = world.mods.iter().filter(|(_, m)| m.k == "redirect" && m.stale).map(|(id, _)| id.clone()).collect();
   let mut meta_sums = serde_json::Map::new();
   for (name, pkg) in &world.registry {
     for v in pkg.versions.keys() {
@@ -649,7 +662,7 @@ pub fn world_facts(world: &World) -> Value {
       }
     }
   }
-  json!({"rank": rank, "seedByName": seed_by_name, "sums": sums, "metaSums": meta_sums,
+  json!({"rank": rank, "seedByName": seed_by_name, "sums": sums, "staleRedir": stale_redir, "metaSums": meta_sums,
          "reg": reg, "order": order, "matches": matches, "specs": specs, "imports": imports, "targets": targets, "owner": owner, "seeds": seeds,
          "cutoff": world.opts.cutoff, "preferCached": world.opts.prefer_cached, "lockEnabled": world.lock.enabled,
          "lockRemote": world.lock.remote, "lockPkg": world.lock.pkg})
@@ -793,7 +806,7 @@ pub fn gen_world(rng: &mut StdRng, faults: bool) -> World {
     }
     let k = if faults && rng.gen_range(0..12) == 0 { ["missing", "err", "redirect", "external"][rng.gen_range(0..4)] } else { "mod" };
     let to = if k == "redirect" { file_ids[rng.gen_range(0..file_ids.len())].2.clone() } else { String::new() };
-    world.mods.insert(id.clone(), Resp { k: k.into(), items, st: "-".into(), to, src: None, headers: None, fin: None, stale: false });
+    world.mods.insert(id.clone(), Resp { k: k.into(), items, st: "-".into(), to, src: None, headers: None, fin: None, ht: None, stale: false });
   }
   // root
   let mut items = vec![];
@@ -817,13 +830,13 @@ pub fn gen_world(rng: &mut StdRng, faults: bool) -> World {
     }
     let k = if faults { match rng.gen_range(0..10) { 0 => "missing", 1 => "err", 2 if i + 1 < nremote => "redirect", _ => "mod" } } else { "mod" };
     let to = if k == "redirect" { rids[i + 1].to_string() } else { String::new() };
-    world.mods.insert(id.to_string(), Resp { k: k.into(), items: its, st: "-".into(), to, src: None, headers: None, fin: None, stale: faults && rng.gen_bool(0.25) });
+    world.mods.insert(id.to_string(), Resp { k: k.into(), items: its, st: "-".into(), to, src: None, headers: None, fin: None, ht: None, stale: faults && rng.gen_bool(0.25) });
     let f = forms[rng.gen_range(0..forms.len())].to_string();
     // asset imports (`with { type: "text" | "bytes" }`) go through Loader::ensure_cached
     let a = if f != "export" && rng.gen_bool(0.3) { ["text", "bytes"][rng.gen_range(0..2)] } else { "none" };
     items.push(Item { t: id.to_string(), sp: "0".into(), f, a: a.into(), tt: "-".into() });
   }
-  world.mods.insert("r".into(), Resp { k: "mod".into(), items, st: "-".into(), to: String::new(), src: None, headers: None, fin: None, stale: false });
+  world.mods.insert("r".into(), Resp { k: "mod".into(), items, st: "-".into(), to: String::new(), src: None, headers: None, fin: None, ht: None, stale: false });
   world.ext.insert("r".into(), "ts".into());
   world.sch.insert("r".into(), "file".into());
   world.roots.push("r".into());
@@ -919,13 +932,13 @@ pub fn gen_info_world(rng: &mut StdRng) -> World {
     let st = if !typed && rng.gen_bool(0.3) { ids[rng.gen_range(0..ids.len())].0.clone() } else { "-".to_string() };
     let st = if st == *id { "-".to_string() } else { st };
     let _ = i;
-    world.mods.insert(id.clone(), Resp { k: "mod".into(), items, st, to: String::new(), src: None, headers: None, fin: None, stale: false });
+    world.mods.insert(id.clone(), Resp { k: "mod".into(), items, st, to: String::new(), src: None, headers: None, fin: None, ht: None, stale: false });
   }
   let mut pkg = Pkg { versions: Default::default(), meta: "ok".into() };
   pkg.versions.insert(v.into(), pv);
   world.registry.insert(name.into(), pkg);
   world.mods.insert("r".into(), Resp { k: "mod".into(), items: vec![Item { t: "raw:jsr:@s/p@1".into(), sp: "0".into(), f: "static".into(), a: "none".into(), tt: "-".into() }],
-    st: "-".into(), to: String::new(), src: None, headers: None, fin: None, stale: false });
+    st: "-".into(), to: String::new(), src: None, headers: None, fin: None, ht: None, stale: false });
   world.ext.insert("r".into(), "ts".into());
   world.sch.insert("r".into(), "file".into());
   world.roots.push("r".into());
